@@ -363,4 +363,4 @@ FUNCTIONS = {
     ]
 }
 FUNCTIONS.update({"np.mean": np.mean, "np.median": np.median, "np.max": np.max,
-                  "np.min": np.min, "np.std": np.std})
+                  "np.min": np.min, "np.std": np.std, "np.var": np.var, "np.sum": np.sum, "np.ptp": np.ptp})
